@@ -300,6 +300,61 @@ def preset_rule(ctx, fv):
 
 # ---------------------------------------------------------------- F
 
+def eval_pred(t, env):
+    """evaluate a boolean/integer term over cmd.<field> variables given in env; None if not evaluable"""
+    h = t[0]
+    if h == "lit":
+        return t[1]
+    if h == "field" and t[1][0] == "local" and t[1][1] == "cmd":
+        return env.get(t[2])
+    if h == "cast":
+        return eval_pred(t[2], env)
+    if h == "un" and t[1] == "!":
+        v = eval_pred(t[2], env)
+        return None if v is None else (not v)
+    if h == "bin":
+        a, b = eval_pred(t[2], env), eval_pred(t[3], env)
+        if a is None or b is None:
+            return None
+        op = t[1]
+        return {"==": a == b, "!=": a != b, "<": a < b, "<=": a <= b, "&&": bool(a) and bool(b), "||": bool(a) or bool(b),
+                "+": a + b if not isinstance(a, bool) else None, "-": a - b if not isinstance(a, bool) else None}.get(op)
+    return None
+
+
+def window_refusal(w, m):
+    return w > 0 and w <= m
+
+
+def classify_refusal(t):
+    """'window' / 'm_too_long' / None for the (positive) condition of a refusal"""
+    dom = [(w, m) for w in range(0, 46) for m in range(0, 41)]
+    vals = [eval_pred(t, {"w_size": w, "m_size": m}) for w, m in dom]
+    if any(v is None for v in vals):
+        return None
+    if all(bool(v) == window_refusal(w, m) for v, (w, m) in zip(vals, dom)):
+        return "window"
+    if all(bool(v) == (m >= 31) for v, (w, m) in zip(vals, dom)):
+        return "m_too_long"
+    return None
+
+
+def refusal_guard_terms(gts):
+    """guards [(term, polarity)] of the run call == not window_refusal (and optionally not m >= 31), decided by
+    evaluating the conjunction over w in 0..45, m in 0..30"""
+    dom = [(w, m) for w in range(0, 46) for m in range(0, 31)]
+    for w, m in dom:
+        vs = []
+        for t, pol in gts:
+            v = eval_pred(t, {"w_size": w, "m_size": m})
+            if v is None:
+                return False
+            vs.append(bool(v) == pol)
+        if all(vs) != (not window_refusal(w, m)):
+            return False
+    return True
+
+
 def refusal_guards(gl):
     need = "!((0 < cmd.w_size) && (cmd.w_size <= cmd.m_size))"
     opt = "!(31 <= cmd.m_size)"      # implied by the clap range when its upper bound is <= 30 (checked in C15.Z)
@@ -373,7 +428,7 @@ def flow_rule(ctx, fv):
                 s = "VECSIZE_K"
             sargs.append(s)
         gl = [gshow(fv.term(g), pol) for g, pol in fv.guards(n)]
-        if arm == "Min" and refusal_guards(gl):
+        if arm == "Min" and (refusal_guards(gl) or refusal_guard_terms([(cmdnorm(fv.term(g)), pol) for g, pol in fv.guards(n)])):
             gl = ["REFUSALS"]
         actual.setdefault(arm, []).append((c, sargs, sorted(gl), n))
     total = 0
@@ -482,6 +537,14 @@ def refusal_rule(ctx, fv):
         for name, pred in want.items():
             if any(pred(s) and pol for s, pol, _ in gs):
                 found[name] = r
+        # the same refusals written differently (`w != 0 && !(w > m)`, `m > 30`): decided by evaluation over a finite domain
+        for g, pol in fv.guards(r, with_asserts=False):
+            if pol:
+                kind = classify_refusal(cmdnorm(fv.term(g)))
+                if kind == "window":
+                    found.setdefault("Min:window_not_longer_than_m", r)
+                elif kind == "m_too_long":
+                    found.setdefault("Min:m_too_long", r)
     for name in want:
         r = found.get(name)
         if r is None and name == "Min:m_too_long":
